@@ -416,9 +416,10 @@ func (g *GoBackNConn) sendPacket(ctx context.Context, msg Message,
 //
 // This function must be called in a go routine.
 func (g *GoBackNConn) sendPacketsForever() error {
-	// resendQueue re-sends the current contents of the queue.
-	resendQueue := func() error {
-		err := g.sendQueue.resend()
+	// resendQueueOpt re-sends the current contents of the queue. A forced
+	// resend is not subject to the minimum distance between two resends.
+	resendQueueOpt := func(force bool) error {
+		err := g.sendQueue.resendQueue(force)
 		if err != nil {
 			return err
 		}
@@ -440,6 +441,12 @@ func (g *GoBackNConn) sendPacketsForever() error {
 		}
 
 		return nil
+	}
+
+	// resendQueue re-sends the current contents of the queue, unless that
+	// has been done only recently.
+	resendQueue := func() error {
+		return resendQueueOpt(false)
 	}
 
 	for {
@@ -579,9 +586,13 @@ func (g *GoBackNConn) sendPacketsForever() error {
 				// The pong timer must not run without the peer
 				// having been asked anything: the next regular
 				// resend may be further away than the pong
-				// timeout. So the queue is resent right away
-				// (unless that has just been done).
-				if err := resendQueue(); err != nil {
+				// timeout. So the queue is resent right away,
+				// also if it has been resent recently: the
+				// minimum distance between two resends is the
+				// handshake timeout, which can be longer than
+				// the pong timeout, and we have heard nothing
+				// for the ping time.
+				if err := resendQueueOpt(true); err != nil {
 					return err
 				}
 
